@@ -345,7 +345,7 @@ func TestVF_C01ManyFiles(t *testing.T) {
 			proto     int
 			overwrite bool
 			dir       bool
-		}{{2, false, false}, {3, true, true}, {4, false, true}, {4, true, true}} {
+		}{{1, false, false}, {1, true, true}, {2, false, false}, {3, true, true}, {4, false, true}, {4, true, true}} {
 			for _, engine := range []string{"census", "rlimit"} {
 				job++
 				if job%shards != shard {
